@@ -425,7 +425,7 @@ class C06(Check):
                    "power loss)", "sequentially written files are modelled as truncate + byte-prefix of the final content; HDF5 writes are the "
                    "(offset, bytes) the real library issued through h5py's file-object driver; the model is validated on every run by "
                    "replaying the trace and comparing all five files byte for byte"]
-    quick = {"runs": 16, "wall": 150, "item_timeout": 600}
+    quick = {"runs": 16, "wall": 420, "item_timeout": 900}
     thorough = {"runs": 400, "wall": 900, "item_timeout": 900}
 
     def gen(self, rng, tier, i):
